@@ -275,13 +275,48 @@ func p1Check(c *Ctx, fn *ssa.Function, acq *ssa.Call, key, pos string) {
 	seen := map[*ssa.BasicBlock]bool{}
 	var leak ssa.Instruction
 	var risky ssa.Instruction
+	var double ssa.Instruction
 	kinds := map[string]int{}
+	// after a transfer (the iterator was put on a stack that a deferred closure drains) the
+	// stack owns it: an explicit Done on it before it is taken off the stack again releases it twice
+	seenT := map[*ssa.BasicBlock]bool{}
+	var visitT func(b *ssa.BasicBlock, i int)
+	visitT = func(b *ssa.BasicBlock, i int) {
+		for ; i < len(b.Instrs); i++ {
+			in := b.Instrs[i]
+			if k, ok := release[in]; ok && k == "done" {
+				if double == nil {
+					double = in
+				}
+				return
+			}
+			switch x := in.(type) {
+			case *ssa.Return, *ssa.Panic:
+				return
+			case *ssa.Store:
+				if sl, ok := x.Val.(*ssa.Slice); ok && sl.High != nil {
+					if st, ok := sl.Type().Underlying().(*types.Slice); ok && isIteratorType(st.Elem()) {
+						return // popped: ownership is decided by the code that pops
+					}
+				}
+			}
+		}
+		for _, s := range b.Succs {
+			if !seenT[s] {
+				seenT[s] = true
+				visitT(s, 0)
+			}
+		}
+	}
 	var visit func(b *ssa.BasicBlock, i int)
 	visit = func(b *ssa.BasicBlock, i int) {
 		for ; i < len(b.Instrs); i++ {
 			in := b.Instrs[i]
 			if k, ok := release[in]; ok {
 				kinds[k]++
+				if k == "transfer" {
+					visitT(b, i+1)
+				}
 				return
 			}
 			switch x := in.(type) {
@@ -330,6 +365,10 @@ func p1Check(c *Ctx, fn *ssa.Function, acq *ssa.Call, key, pos string) {
 			what = "panic"
 		}
 		c.viol(key, pos, fmt.Sprintf("iterator acquired here reaches the %s at %s on a path with no Done (neither deferred nor explicit): the collection stays locked against mutation forever", what, c.P.Pos(leakPos(leak))))
+		return
+	}
+	if double != nil {
+		c.viol(key, pos, fmt.Sprintf("iterator is handed to a stack that a deferred closure drains, and is also released explicitly at %s while still on that stack: Done runs twice, which underflows the collection's iteration counter (locked forever) or unlocks an enclosing loop's collection", c.P.Pos(double.Pos())))
 		return
 	}
 	if risky != nil && kinds["defer"] == 0 && kinds["closure-defer"] == 0 && (kinds["done"] > 0) {
